@@ -560,3 +560,43 @@ def _after_valid(cfg, f, ex, blk, BB):
                 if cfg.dominates(valid_succ, blk):
                     return True
     return False
+
+
+def r5_move_lists(ctx):
+    """the moves each recursive search iterates are the generator's output for the current node"""
+    rid = "C08.R5"
+    ctx.rule(rid, "search_negamax iterates the pseudo-legal generator's list and search_quiescence the capture/promotion generator's list of the node itself: the generator call dominates the move loop, and between it and the loop the list is only sorted (and, at the root, filtered by searchmoves): no retain / truncate / drain / pop / reuse of a caller's list", floor=4)
+    GEN = {"search_negamax": "generate_pseudo_legal_moves_with_buffer", "search_quiescence": "generate_pseudo_legal_non_quiescent_moves_with_buffer"}
+    SHRINK = ("retain", "retain_mut", "truncate", "drain", "pop", "remove", "swap_remove", "dedup", "dedup_by", "dedup_by_key", "split_off", "resize", "extract_if")
+    for name, gen in GEN.items():
+        f = ctx.fn(rid, SEARCH + name)
+        cfg, ex = Cfg(f), Exprs(f)
+        rec = [b for b in sorted(cfg.reach) if f["blocks"][b]["term"]["k"] == "call" and f["blocks"][b]["term"]["callee"].get("key") == SEARCH + name]
+        heads = sorted({h for (a, h) in cfg.back_edges() if rec and cfg.dominates(h, rec[0])})
+        if len(rec) != 1 or len(heads) != 1:
+            ctx.lost(rid, "%s: the move loop" % name)
+            continue
+        hdr = heads[0]
+        gens = [b for b in sorted(cfg.reach) if f["blocks"][b]["term"]["k"] == "call" and (f["blocks"][b]["term"]["callee"].get("key") or "").endswith("Bitboard::" + gen)]
+        ok = len(gens) >= 1 and any(cfg.dominates(g_, hdr) for g_ in gens)
+        ctx.ob(rid, "%s|generator-dominates-loop" % name, ok,
+               "" if ok else "%s can reach its move loop without having called Bitboard::%s for this node: it iterates a list it did not generate (a caller's list, filtered), so moves the generator would produce - quiet promotions in the capture list, for example - are never searched" % (name, gen),
+               ctx.where(f), sample={"generator_calls": len(gens)})
+        # the buffer parameter is not shrunk before the loop
+        shr = []
+        for b in sorted(cfg.reach):
+            t = f["blocks"][b]["term"]
+            if t["k"] != "call" or cfg.dominates(hdr, b):
+                continue
+            k = t["callee"].get("key") or ""
+            if k.rsplit("::", 1)[-1] in SHRINK and ("Vec" in k or "vec" in k):
+                shr.append((k.rsplit("::", 1)[-1], t["line"]))
+        ctx.ob(rid, "%s|list-not-shrunk-before-loop" % name, not shr, "" if not shr else "%s shrinks a move list before its loop with %s" % (name, shr), ctx.where(f, shr[0][1] if shr else None))
+
+
+_run_before_r5 = run
+
+
+def run(ctx):
+    _run_before_r5(ctx)
+    r5_move_lists(ctx)
